@@ -186,7 +186,7 @@ class Sandbox:
         "Path as the script must be given it."
         return p if self.ns else str(self.root) + p
 
-    def invoke(self, args: List[str], fault: Optional[int] = None, srcfault: Optional[str] = None, timeout=60) -> Tuple[int, List[List[str]], str]:
+    def invoke(self, args: List[str], fault: Optional[int] = None, srcfault: Optional[str] = None, timeout=60, how: str = "abs") -> Tuple[int, List[List[str]], str]:
         """Run /scripts/runner.sh with args.  Returns (exit status, command log of this invocation, nonce)."""
         self.ninv += 1
         nonce = f"N{self.ninv}-{os.getpid()}-{id(self) % 100000}"
@@ -205,14 +205,16 @@ class Sandbox:
         (ctl / "log").write_text("")
         env = {"PATH": "/stubbin" if self.ns else str(self.root / "stubbin"), "HOME": "/tmp", "LANG": "C"}
         quoted = " ".join("'" + a.replace("'", "'\\''") + "'" for a in args)
+        # how the script is started: by its absolute path (what docker does), through a relative path, or as an argument of bash
+        script = {"abs": "/scripts/runner.sh", "rel": "../scripts/runner.sh", "bash": "bash ../scripts/runner.sh"}[how]
         if self.ns:
             r = self.root
             inner = (f"mount --make-rprivate / && mount --bind /usr {r}/usr && mount -o remount,ro,bind {r}/usr && mount --bind /dev {r}/dev && "
-                     f"exec chroot {r} /usr/bin/env -i PATH=/stubbin HOME=/tmp LANG=C /usr/bin/bash -c \"cd /work && exec /scripts/runner.sh {quoted}\"")
+                     f"exec chroot {r} /usr/bin/env -i PATH=/stubbin HOME=/tmp LANG=C /usr/bin/bash -c \"cd /work && exec {script} {quoted}\"")
             cmd = ["unshare", "-m", "bash", "-c", inner]
             p = subprocess.run(cmd, capture_output=True, text=True, timeout=timeout, errors="replace")
         else:
-            p = subprocess.run(["/usr/bin/bash", "-c", f"cd {self.root}/work && exec {self.root}/scripts/runner.sh {quoted}"], env=env,
+            p = subprocess.run(["/usr/bin/bash", "-c", f"cd {self.root}/work && exec " + (f"{self.root}/scripts/runner.sh" if how == "abs" else script) + f" {quoted}"], env=env,
                                capture_output=True, text=True, timeout=timeout, errors="replace")
         log = [l.split("\t") for l in (ctl / "log").read_text().split("\n") if l]
         return p.returncode, log, nonce, (p.stdout[-2000:] + p.stderr[-2000:])
